@@ -544,3 +544,7 @@ M('C17', 'void-pointer-member-in-term', 'bioscrape/types.pxd', "cdef class Power
 M('C17', 'binary-term-restore-reversed', T, "        for i, x in enumerate(state):\n            new_term.py_add_term(x)", "        for i, x in enumerate(reversed(state)):\n            new_term.py_add_term(x)", 'fire', 'R17.4-ordered-restore')
 M('C17', 'cellstate-copy-dropped', S, "        self.state = state[2].copy()", "        self.state = state[2]", 'silent')
 M('C17', 'reduce-arg-order', L, "return (self.__class__, (self.initial_volume, self.initial_time, self.state, self.volume, self.time, self.divided, self.dead))", "return (self.__class__, (self.initial_time, self.initial_volume, self.state, self.volume, self.time, self.divided, self.dead))", 'fire', 'R17.1-positions/LineageVolumeCellState.__reduce__')
+M('C04', 'success-loosened', S, "            success = full_output['message'] == 'Integration successful.'\n", "            success = full_output['message'] == 'Integration successful.' or steps_allowed >= self.mxstep\n", 'fire', 'R4.3-odeint-call')
+M('C19', 'splitter-index-off-by-one', L, "			vsplit_ind = vsplit_ind - self.num_division_rules\n", "			vsplit_ind = vsplit_ind - self.num_division_rules + 1\n", 'fire', 'R19.3-splitter-choice')
+M('C19', 'event-index-encoding', L, "cell_divided = reaction_choice - self.num_reactions - self.num_volume_events + self.num_division_rules", "cell_divided = reaction_choice - self.num_reactions - self.num_volume_events", 'fire', 'R19.3-splitter-choice')
+M('C01', 'lineage-events-plain-slot', L, "propensity_destination[self.num_reactions+ind] = (<Propensity>(self.c_lineage_propensities[0][ind])).get_stochastic_volume_propensity(", "propensity_destination[self.num_reactions+ind] = (<Propensity>(self.c_lineage_propensities[0][ind])).get_volume_propensity(", 'fire', 'R1.4-iface-loop/lineage')
